@@ -34,7 +34,42 @@ RULE = ("random type-directed pipelines (pipes.gen_case, total window orders, fi
         "permutation / re-indexing metamorphic test on every backend, sortedness and limit prefix); non-trivial = the "
         "pipeline evaluates to at least one row")
 
+class PivotDirect(OracleOnly):
+    """input tables that are ALREADY in block form (record key, measure, value) pivoted by the first step: the
+    permutation of the input rows reaches blocks_to_rowrecs itself (after an unpivot every block arrives in the same
+    record order, which hides a pivot that depends on arrival order)"""
+    name = "c18_pivot_direct"
+    n_quick, n_thorough = 60, 600
+
+    def gen(self, rng, tier):
+        import random
+        from .. import pipes
+        n = self.n_quick if tier == "quick" else self.n_thorough
+        for _ in range(n):
+            r = random.Random(rng.getrandbits(64))
+            nrec, labels = r.randint(2, 5), r.sample(["m1", "m2", "m3", "lo", "hi"], r.randint(2, 3))
+            two_keys = r.random() < 0.3
+            recs = r.sample(range(1, 9), nrec)
+            rows = []
+            for k in recs:
+                for l in labels:
+                    rows.append(([k, "g%d" % (k % 2)] if two_keys else [k]) + [l, r.choice([None, r.randint(-3, 9)])])
+            r.shuffle(rows)
+            keys = ["k", "k2"] if two_keys else ["k"]
+            d = pipes.mk_table(keys + ["measure", "value"], ["int"] + (["str"] if two_keys else []) + ["str", "int"], rows)
+            srcs = ["v_" + l for l in labels]
+            control = pipes.mk_table(["measure", "value"], ["str", "str"], [[l, s_] for l, s_ in zip(labels, srcs)])
+            spec = {"control": control, "record_keys": keys, "control_keys": ["measure"], "strict": True}
+            steps = [{"call": "convert_records", "blocks_in": spec, "blocks_out": None}]
+            if r.random() < 0.5:
+                steps.append({"call": "extend", "ops": [["t", srcs[0] + " + " + srcs[1]]], "partition_by": None,
+                              "order_by": None, "reverse": None})
+            self.distribution["pivot_direct"] = self.distribution.get("pivot_direct", 0) + 1
+            yield {"tables": {"d": d}, "pipe": {"table": "d", "steps": steps}, "meta": {"calls": ["convert_records"]}}
+
+
 SUITES = [with_oracle(K4Sem, oracles.oracle_C18, every=2, final_order=0.45),
+          with_oracle(PivotDirect, oracles.oracle_C18, name="c18_pivot_direct"),
           # record transforms are outside the executor model (Θ.convert is abstract): their row-order independence is
           # judged by the oracle alone, on pipelines biased towards convert_records
           with_oracle(OracleOnly, oracles.oracle_C18, name="c18_records", convert_records=6.0)]
